@@ -303,6 +303,24 @@ pub fn scenarios(tier: Tier) -> Vec<LinkScenario<fn() -> Box<dyn Probe>>> {
             out.push(LinkScenario { cfg, probe: probe_tight as fn() -> Box<dyn Probe> });
         }
     }
+    // G5: the script fills the budget exactly (500 + 1200 + 1200 = 2900): the last byte of the budget is usable on
+    // the send side, and duplicates of buffered messages must not be charged again on the receive side
+    for (name, ch) in [("ord", 0u8), ("unord", 1u8)] {
+        for dir in 0..2usize {
+            if tier == Tier::Quick && dir == 1 {
+                continue;
+            }
+            let mut cfg = LinkCfg::base(&format!("budget 2900 filled exactly by {} 500+1200+1200 dir{}", name, dir), chans(2900), chans(2900));
+            cfg.dt_ms = vec![100];
+            cfg.horizon = 5;
+            cfg.tail = 8;
+            cfg.drains = vec![Drain::End];
+            cfg.gated_sends = true;
+            cfg.fates = vec![Fate::Ok, Fate::Drop, Fate::Dup, Fate::DupLate, Fate::Delay2];
+            cfg.script = vec![Send::at(0, dir, ch, 500), Send::at(0, dir, ch, 1200), Send::at(0, dir, ch, 1200)];
+            out.push(LinkScenario { cfg, probe: probe_tight as fn() -> Box<dyn Probe> });
+        }
+    }
     // G4: bandwidth-starved tick budget: unreliable messages are dropped at the flush, their bytes must come back
     for dir in 0..2usize {
         if tier == Tier::Quick && dir == 1 {
